@@ -13,7 +13,10 @@ macro_rules! impl_for_ca {
                 fn titer(&self) -> impl TIterator<Item=Option<$real>>
                 // where Option<$real>: 'a
                 {
-                    self.into_iter()
+                    // polars' multi-chunk iterator never lowers its size hint while it is
+                    // consumed; TrustIter keeps the announced length exact
+                    let len = self.len();
+                    self.into_iter().to_trust(len)
                 }
             }
         )*
